@@ -70,13 +70,31 @@ def cases(tier, rng):
             for m in mask_variants(t, rng, 2 if tier == "quick" else 4):
                 out.append((useq_case(p, t, m), "masked-right"))
                 out.append((useq_case(p, m, t), "masked-left"))
+    # (d) a term t in which the variable v occurs exactly once, against an instance g of t (v replaced by a fresh
+    #     variable or a ground term, every other variable by a ground term): the same with v replaced by $_ must
+    #     give the same bindings except the one of (or to) v - the other positions still bind
+    W = var(11, "$W")
+    ground = [atom("a"), integer(1), lst([atom("b")]), cplx("f", atom("a")), EMPTY]
+    for t in uu:
+        for v in VARS:
+            if t.count(v) != 1 or t == v: continue
+            for _ in range(2 if tier == "quick" else 6):
+                sub = {w: rng.choice(ground) for w in VARS}
+                sub[v] = W if rng.random() < 0.6 else rng.choice(ground)
+                g = t
+                for w in VARS: g = g.replace(w, "@%d@" % VARS.index(w))
+                for w in VARS: g = g.replace("@%d@" % VARS.index(w), sub[w])
+                m = t.replace(v, ANON)
+                out.append((useq_case([], t, g), "inst-full-left")); out.append((useq_case([], m, g), "inst-masked-left:" + v))
+                out.append((useq_case([], g, t), "inst-full-right")); out.append((useq_case([], g, m), "inst-masked-right:" + v))
     return out
 
 RULE = ("(a) x = $_ and $_ = x for every x of the 119-term universe plus function terms and malformed terms, under 18 "
         "prior substitutions; (b) random sequences of 2-5 unifications in which about 40% of the steps have $_ on one side, "
         "each paired with the same sequence without those steps; (c) every universe term against copies of itself with "
-        "sub-terms (arguments, list elements, list tails, nested terms) replaced by $_. Relations on the implementation's "
-        "results: (a),(c) succeed and return the prior set unchanged; (b) both sequences give the same result; no result "
+        "sub-terms (arguments, list elements, list tails, nested terms) replaced by $_; (d) every universe term t in which a variable v occurs exactly once "
+        "against an instance of t (v replaced by a fresh variable or a ground term, the other variables by ground terms), in both orders, and the same with v replaced by $_. "
+        "Relations on the implementation's results: (d) the bindings are those of the run with v, minus the binding of (or to) v; (a),(c) succeed and return the prior set unchanged; (b) both sequences give the same result; no result "
         "binds a variable to $_. Non-trivial = the case contains $_ and the prior or the sequence binds something.")
 
 def nontrivial(case, tag, result):
@@ -86,7 +104,9 @@ def _split(case):
     c = parse(case)
     return c[2:]
 
+REL_STATS = {}
 def relations(cases, impl):
+    REL_STATS.clear()
     res_of = {}
     for (case, tag), (out, res) in zip(cases, impl):
         res_of[case] = res
@@ -108,6 +128,19 @@ def relations(cases, impl):
                 yield dict(case=case, tag=tag, cases=[prior, case],
                            why="unifying with $_ (or with a copy masked by $_) must succeed and leave every binding as it was",
                            implementation=dict(before=pres, after=res))
+        if tag.startswith("inst-masked-") and idx > 0:
+            v = parse(tag.split(":", 1)[1])
+            full = obs.parse_result(impl[idx - 1][1])
+            if full[0] != "some": continue       # t and its instance do not unify (e.g. $_ inside): nothing to compare
+            REL_STATS["instance_pairs_compared"] = REL_STATS.get("instance_pairs_compared", 0) + 1
+            def mask(x): return "anon" if x == v else ([mask(y) for y in x] if isinstance(x, list) else x)
+            exp = {i: mask(e) for i, e in enumerate(full[1]) if e is not None and i != int(v[1]) and e != v}
+            got = None if r[0] != "some" else {i: e for i, e in enumerate(r[1]) if e is not None}
+            if got != exp:
+                yield dict(case=case, tag=tag, cases=[cases[idx - 1][0], case],
+                           why="replacing a variable that occurs once by $_ must change nothing but that variable's own binding",
+                           implementation=dict(with_variable=impl[idx - 1][1], with_anon=res))
+            continue
         if tag == "seq-stripped" and idx > 0 and cases[idx - 1][1] == "seq-with-anon":
             full_case = cases[idx - 1][0]; full_res = impl[idx - 1][1]
             if full_res != res:
